@@ -114,6 +114,28 @@ def gen_c08(tier, seed):
             c = Case(c.id, c.script.replace(" ; PL ", " ; FR poll 0 %d ; PL " % (40000 + r.choice([1, 5, 15, 35])), 1), c.meta, c.sig + "/intr")
         cases.append(c)
         idx += 1
+    # many sources (most of them process-less or repeated) under a descriptor limit smaller than four
+    # slots per source: the number of sources is the caller's business, not a reason to fail
+    for k in range(24 if tier == "quick" else 200):
+        r = rng_for(seed, "c08many", idx)
+        o0 = {"dl": r.choice([0, 30, 110]), "stop": KILL_POLICY}
+        o1 = {"dl": r.choice([0, 70]), "stop": KILL_POLICY}
+        nsrc = r.choice([65, 70, 100, 150, 300])
+        src = []
+        for _ in range(nsrc):
+            w = r.randrange(10)
+            src.append((-1, r.choice([0, EV_OUT, 15])) if w < 7 else ((0 if w < 9 else 1), r.choice([EV_OUT, EV_EXIT, EV_OUT | EV_EXIT])))
+        src[r.randrange(nsrc)] = (0, EV_OUT | EV_EXIT)
+        to = r.choice([20, 60, 200])
+        parts = ["rlimit 256", "N 0", start_tokens(0, o0), "N 1", start_tokens(1, o1)]
+        if r.random() < 0.5:
+            parts.append("E %d %d %s" % (r.randrange(2), r.choice([25, 45]), r.choice(["W 1 10", "X 3"])))
+        parts.append("Z 20")
+        pl = "%d %s" % (nsrc, " ".join("%s %d" % (h if h >= 0 else "-", i) for h, i in src))
+        parts += ["PL %d %s" % (to, pl), "PL 0 %s" % pl, "D 0", "D 1"]
+        cases.append(Case("c08-%d" % idx, " ; ".join(parts), {"handles": {0: o0, 1: o1}, "polls": [{"to": to, "src": src}, {"to": 0, "src": src}], "many": nsrc},
+                          "c08many/%d/%d/%d" % (nsrc, to, k)))
+        idx += 1
     # a failed start with a deadline must not leave that deadline on a handle that is started again
     for stale in (30, 60, 150):
         for dl2 in (0, 0, 500):
@@ -258,6 +280,8 @@ def gen_c09(tier, seed):
         meta = {"handles": handles, "polls": polls}
         sig = "c09/%d" % i
         cases.append(Case("c09-%d" % i, " ; ".join(parts), meta, sig))
+    # polls over many (mostly process-less or repeated) sources, shared with C08
+    cases += [c for c in gen_c08(tier, seed) if c.meta.get("many")]
     return cases
 
 
@@ -323,6 +347,7 @@ def judge_poll(prop_c08, prop_c09, op, spec, pre, post, pending, vs, obs):
         return
     if ret < 0:
         V(prop_c09, "unexpected-error:%d" % ret, "poll returned %d" % ret)
+        V(prop_c08, "error-instead-of-bounded-return:%d" % ret, "poll over %d sources returned %d; nothing is wrong with the call, it has to come back with 0 or events by %s" % (len(src), ret, bound))
         return
     if t1 > bound:
         which = "deadline" if (d_min is not None and d_min == bound) else "timeout"
